@@ -39,6 +39,10 @@ void apply_knobs(const Case &c) {
   if (c.params.has("knobs"))
     for (auto &kv : c.params.at("knobs").o)
       p.set_param(kv.first, kv.second.as_str());
+  // neutraliser of KF36: run fixed_tvpi_domain without tracked coefficients,
+  // i.e. without its ghost-variable layer (the domain is then its base domain)
+  if (c.pbool("tvpi_off"))
+    p.coefficients().clear();
   HookState &h = hooks();
   h.unusual_enabled = c.pint("ntow_per_mille", 0) > 0;
   h.unusual_per_mille = (unsigned)c.pint("ntow_per_mille", 0);
